@@ -242,7 +242,7 @@ func genFramingDir(dir string) func(t *rapid.T) Framing {
 			c.Sizes = append(c.Sizes, s)
 			c.Seeds = append(c.Seeds, rapid.Byte().Draw(t, "seed"))
 		}
-		if (dir == "client-read" || dir == "server") && rapid.IntRange(0, 9).Draw(t, "runts") < 3 {
+		if (dir == "client-read" || dir == "server") && rapid.IntRange(0, 9).Draw(t, "runts") >= 7 {
 			// frames of 0..11 octets among the messages: most of them FOLLOWED by a message, since what such
 			// a frame leaves for the next read is the point
 			if len(c.Sizes) == 1 || rapid.IntRange(0, 3).Draw(t, "runtExtra") == 0 {
